@@ -70,6 +70,42 @@ fn case<R: BigEnt + LLLRing>(rng: &mut StdRng, t: &mut Tracer, st: &mut Stats, c
     }
 }
 
+/// Step-level recording (hook H2): every state change of the LLL working data over Z, for Trace_LllSteps.
+pub fn steps(a: &Args) {
+    use std::sync::{Arc, Mutex};
+    use yui_matrix::verif::{clear_lll_hook, set_lll_hook, LllStep};
+    let mut t = Tracer::create(&a.out);
+    let mut rng = a.rng(77);
+    let n_cases = if a.thorough() { 80 } else { 20 };
+    let (mut cases, mut nsteps, mut swaps) = (0usize, 0usize, 0usize);
+    let big = |s: &str| -> serde_json::Value { crate::enc::big_json(&s.parse::<BigInt>().expect("integer")) };
+    for c in 0..n_cases {
+        let m = rng.gen_range(2..=if a.thorough() { 5 } else { 4 }); let n = rng.gen_range(m..=m + 2);
+        let mut d = rand_dense::<BigInt>(&mut rng, m, n, 0.8, 9);
+        if c % 2 == 0 { for i in 1..m { let f = BigInt::from(rng.gen_range(3..30)); d[i] = (0..n).map(|j| &d[i][j] + &(&d[i - 1][j] * &f)).collect(); } }
+        let b0 = dense_of(&d, m, n);
+        let rank = { let b1 = b0.clone(); match with_deadline(30, move || snf(&b1, [false; 4]).rank()) { Some(Ok(r)) => r, _ => usize::MAX } };
+        if rank != m { continue; }
+        let log: Arc<Mutex<Vec<LllStep>>> = Arc::new(Mutex::new(vec![]));
+        let l2 = log.clone();
+        set_lll_hook(Arc::new(move |e: &LllStep| l2.lock().unwrap().push(e.clone())));
+        let r = guarded(|| lll(&b0, rng.gen_bool(0.5)));
+        clear_lll_hook();
+        cases += 1;
+        for e in log.lock().unwrap().iter() {
+            nsteps += 1; if e.kind == "swap" { swaps += 1; }
+            let (mm, nn) = (e.target.len(), e.target.first().map(|r| r.len()).unwrap_or(0));
+            t.emit(&json!({"kind": e.kind, "i": e.i, "k": e.k, "coeff": if e.coeff.is_empty() { big("0") } else { big(&e.coeff) }, "step": e.step,
+                "target": {"m": mm, "n": nn, "a": e.target.iter().map(|r| r.iter().map(|x| big(x)).collect::<Vec<_>>()).collect::<Vec<_>>()},
+                "det": e.det.iter().map(|x| big(x)).collect::<Vec<_>>(), "lambda": e.lambda.iter().map(|r| r.iter().map(|x| big(x)).collect::<Vec<_>>()).collect::<Vec<_>>(), "case": c}));
+        }
+        if r.is_err() { t.emit(&json!({"kind": "panic", "case": c})); }
+    }
+    let n = t.finish();
+    summary("steps", json!({"events": n, "lll_runs": cases, "steps": nsteps, "swaps": swaps}));
+    std::process::exit(0);
+}
+
 pub fn record(a: &Args) {
     I64_AS_Z.store(true, std::sync::atomic::Ordering::Relaxed);
     let mut t = Tracer::create(&a.out);
